@@ -516,6 +516,7 @@ def c19(run):
     r_route.run_establishers(run, P)
     from rules import r_expiry
     from rules import r_misc12 as _m12
+    _m12.run_in_progress_not_failure(run, P)
     _m12.run_sibling_deadline_tests(run, P)   # the (D)TLS retransmission timer is asked the same question for client and server sessions
     r_expiry.run(run, P)                 # half-open sessions are cleared down when they are old, not while their handshake is in progress
     from rules import r_delayq
